@@ -135,6 +135,9 @@ pub enum CompilationError {
     BadEscapeSequence {
         sequence: String,
     },
+    NumericLiteralOutOfRange {
+        literal: String,
+    },
     SpecializationOfType {
         name: Identifier,
         type_: Arc<XType>,
@@ -354,6 +357,7 @@ impl Resolve for CompilationError {
             InvalidAutoLocation {},
             AutoSpecializationWithoutCall {},
             BadEscapeSequence { sequence },
+            NumericLiteralOutOfRange { literal },
             SpecializationOfType { name, type_ },
             SpecializationOfVariable { name },
             TypeAsVariable { type_ },
@@ -495,6 +499,9 @@ pub enum ResolvedCompilationError {
     AutoSpecializationWithoutCall,
     BadEscapeSequence {
         sequence: String,
+    },
+    NumericLiteralOutOfRange {
+        literal: String,
     },
     SpecializationOfType {
         name: String,
@@ -717,6 +724,9 @@ impl Display for ResolvedCompilationError {
             }
             Self::BadEscapeSequence { sequence } => {
                 write!(f, "bad escape sequence: {sequence}")
+            }
+            Self::NumericLiteralOutOfRange { literal } => {
+                write!(f, "numeric literal out of range: {literal}")
             }
             Self::SpecializationOfType { type_, .. } => {
                 write!(f, "cannot specialize type {type_}")
